@@ -10,7 +10,8 @@ from . import c10 as B
 ID = "C16"
 RULE = (
     "io.* operations: per header type ~50 values (quick) x EVERY failure position k in 0..=len+1 of a writer that accepts "
-    "exactly k bytes, every output slice capacity 0..=len+1 (+canary), per reader type ~50 byte strings x every failure "
+    "exactly k bytes (a third of the link / transport values also through LinkHeader::write / TransportHeader::write), "
+    "every output slice capacity 0..=len+1 (+canary), per reader type ~50 byte strings x every failure "
     "position of the reader, 2000 LimitedReader sessions (random op sequences over primitive and composite reads), "
     "7 convenience PacketBuilder paths x every k / capacity; "
     "io.skip.ext / io.skip.all (Ipv6Header::skip_header_extension / skip_all_header_extensions on a Read + Seek reader): "
@@ -190,6 +191,9 @@ def exts_ref(vals, order):
     return b"".join(N.ref_encode(EXT_TYPE[k], vals[k]) for k in order)
 
 
+WRAPPED = {"eth2": "link.eth2", "sll": "link.sll", "udp": "tp.udp", "tcp": "tp.tcp", "icmpv4": "tp.icmpv4", "icmpv6": "tp.icmpv6"}
+
+
 def gen_write_cases(rng, tier):
     nval = 60 if tier == "quick" else 600
     # link / transport types of the C08 link half: one write_all (TCP: two)
@@ -199,6 +203,9 @@ def gen_write_cases(rng, tier):
             v = link_value(rng, t)
             n = t.hlen(v)
             yield write_case(name, t.args(v), ks_for(rng, n, (20,)), {"len": n, "final": "ok"})
+            if name in WRAPPED and i % 3 == 0:
+                # the same value through the enum wrapper (LinkHeader::write / TransportHeader::write)
+                yield write_case(WRAPPED[name], t.args(v), ks_for(rng, n, (20,)), {"len": n, "final": "ok"})
     # net types: python reference encoding available
     for t in ("ipv6", "ipv6frag", "auth", "rawext"):
         for i in range(nval):
